@@ -279,12 +279,21 @@ func c09Run(c *Ctx) {
 			c09Judge(c, cs)
 		}
 	}
+	// 3'. words that merely look reserved are identifiers: alone, next to keywords, glued to operators
+	for _, w := range plausibleWords {
+		for _, v := range []string{w, w + ";", w + " " + w, kws[len(w)%len(kws)] + " " + w + " = 1;", "(" + w + ")", w + "." + w, w + "\n" + w, "!" + w + "==" + w} {
+			if c.Mine() {
+				c09Judge(c, &Case{Gen: "plausible-words", Src: v})
+			}
+		}
+	}
 	// 4. random long texts mixing multi-line strings and comments
 	r := c.Rand("long")
 	n := c.N(15000, 2000000)
 	pieces := append([]string{}, A...)
 	pieces = append(pieces, "/*/ x */", "/***/", "/**/", "/* * / */", "/*//*/", "//*", "/*\n*/", "/* \" */", "\"/*\"", "//", "/*", "*/", "\"x\ny\"", "/* c\nc */", "// c\n", "abc", "12.5", "১২.৩", "==", "!=", "<=", ">=", "<<", ">>", "**", "&&", "||", "1.", ".5", "1..2", "a.b", "\n\n")
 	pieces = append(pieces, kws...)
+	pieces = append(pieces, plausibleWords[:40]...)
 	for k := 0; k < n; k++ {
 		var b strings.Builder
 		m := 2 + r.Intn(40)
@@ -309,7 +318,7 @@ func c09Judge(c *Ctx, cs *Case) {
 		if len(toks) > 2 || len(errs) > 0 {
 			c.Nontrivial(cs.Src)
 		}
-		if strings.HasPrefix(cs.Gen, "frag") || cs.Gen == "random-long" || cs.Gen == "keyword-variants" {
+		if strings.HasPrefix(cs.Gen, "frag") || cs.Gen == "random-long" || cs.Gen == "keyword-variants" || cs.Gen == "plausible-words" {
 			c.Sample(cs.Gen, cs.Src)
 		}
 	}
@@ -322,7 +331,7 @@ func init() {
 		Assumptions: []string{"Go's unicode.IsLetter/IsMark tables define 'letter' and 'combining mark' for both the implementation and the oracle", "a diagnostic for an unterminated string/comment may name any line from its opening to the end of input"},
 		Run:         c09Run,
 		Judge:       c09Judge,
-		MustCount:   func(c *Ctx) []string { return []string{"gen:frag3", "gen:codepoint-form0", "gen:keyword-variants", "gen:operator-then-codepoint", "gen:number-shapes", "gen:line-separators", "gen:stray-then-codepoint", "gen:sizes", "gen:random-long", "lexerr:char", "lexerr:string", "lexerr:comment", "tok:STRING", "tok:NUMBER", "tok:else", "tok:continue"} },
+		MustCount:   func(c *Ctx) []string { return []string{"gen:frag3", "gen:codepoint-form0", "gen:keyword-variants", "gen:plausible-words", "gen:operator-then-codepoint", "gen:number-shapes", "gen:line-separators", "gen:stray-then-codepoint", "gen:sizes", "gen:random-long", "lexerr:char", "lexerr:string", "lexerr:comment", "tok:STRING", "tok:NUMBER", "tok:else", "tok:continue"} },
 		Exhaustive:  func(string) bool { return false },
 	})
 }
